@@ -8,7 +8,7 @@ HERE = os.path.dirname(os.path.dirname(os.path.abspath(__file__)))
 
 CLAIMS = {
  'C01': dict(cat='other', tech='path-sensitive effect summaries of the framing code: byte-string algebra over the writer\'s effects, reader mirror sequence, remaining-bytes requests by a linear loop invariant, single-update cipher wrappers',
-   text='Decides the structural clauses of framing on all paths: length prefix = len of the very bytes sent next; compressed arm announces len(payload captured before reset) and sends compress(payload), other arm 0 + payload; reader inflates iff announced size > 0; every stream read asks for the remaining length only; per-packet mode lookup; the reading loop takes the stream from the connection for every frame; cipher wrappers are single pass-through updates. Not decided: that zlib/AES invert (library), concrete sizes.',
+   text='Decides the structural clauses of framing on all paths: length prefix = len of the very bytes sent next; compressed arm announces len(payload captured before reset) and sends compress(payload), other arm 0 + payload; reader inflates iff announced size > 0; every stream read asks for the remaining length only; per-packet mode lookup; the reading loop takes the stream from the connection for every frame; cipher wrappers are single pass-through updates. A packet reaches the wire whole or not at all (nothing is sent on a path on which its serialisation raised, also through a context manager that emits on exit). Not decided: that zlib/AES invert (library), concrete sizes.',
    note='Trusted: zlib/cryptography semantics, CPython ast. Holds for all thresholds/segmentations because the rules are path facts, not samples.', ref='3/C01'),
  'C02': dict(cat='other', tech='codec-table agreement, call-arity resolution, short-read dataflow on path summaries, interval analysis of derived values',
    text='Decides per wire type: send/read format strings agree with each other, with the reference table and with the byte count read (struct.calcsize); every codec call site passes the right number of arguments; every stream read in types/ flows into a consumer that fails on short input; prefix = len of the bytes sent; derived integer arguments stay in the codec range (interval analysis); scaling is inverse on both sides, FixedPoint(T, n) divides by 2**n for every n its constructor can be given (folded for 0..32, positional, keyword, default), and each modulus of Angle.send is the scaling constant next to it; an integer codec spelt with int.from_bytes / to_bytes has the prescribed width, byte order and signedness and refuses a short read on every returning path.',
